@@ -110,10 +110,70 @@ def _simple_elt(e):
     return False
 
 
+class _ContinueToBreak(ast.NodeTransformer):
+    """inside one unrolled copy: `continue` of the unrolled loop ends the copy"""
+
+    def visit_Continue(self, node):
+        return ast.copy_location(ast.Break(), node)
+
+    def visit_For(self, node):
+        return node          # continue/break inside belong to the inner loop
+
+    def visit_While(self, node):
+        return node
+
+    def visit_FunctionDef(self, node):
+        return node
+
+    def visit_Lambda(self, node):
+        return node
+
+
+def _own_jumps(body, kind):
+    """Break/Continue statements of `body` that belong to the loop owning `body`"""
+    out = []
+
+    def rec(n):
+        for c in ast.iter_child_nodes(n):
+            if isinstance(c, (ast.For, ast.While, ast.AsyncFor, ast.FunctionDef, ast.AsyncFunctionDef,
+                              ast.Lambda, ast.ClassDef)):
+                continue
+            if isinstance(c, kind):
+                out.append(c)
+            rec(c)
+    for s in body:
+        if isinstance(s, kind):
+            out.append(s)
+        if not isinstance(s, (ast.For, ast.While, ast.AsyncFor)):
+            rec(s)
+    return out
+
+
 class _Unroll(ast.NodeTransformer):
+    def __init__(self):
+        self.literals = {}      # per function: name -> tuple/list literal (single assignment)
+
+    def visit_FunctionDef(self, node):
+        saved = self.literals
+        stores = {}
+        for n in _walk_no_nested(node):
+            if isinstance(n, ast.Name) and isinstance(n.ctx, (ast.Store, ast.Del)):
+                stores[n.id] = stores.get(n.id, 0) + 1
+        self.literals = {}
+        for n in _walk_no_nested(node):
+            if isinstance(n, ast.Assign) and len(n.targets) == 1 and isinstance(n.targets[0], ast.Name) and \
+                    isinstance(n.value, (ast.Tuple, ast.List)) and stores.get(n.targets[0].id) == 1 and \
+                    0 < len(n.value.elts) <= MAX_UNROLL and all(_simple_elt(e) for e in n.value.elts):
+                self.literals[n.targets[0].id] = n.value
+        self.generic_visit(node)
+        self.literals = saved
+        return node
+
     def visit_For(self, node):
         self.generic_visit(node)
         it = node.iter
+        if isinstance(it, ast.Name) and it.id in self.literals:
+            it = self.literals[it.id]
         if isinstance(it, (ast.Tuple, ast.List)) and 0 < len(it.elts) <= MAX_UNROLL and \
                 isinstance(node.target, ast.Name) and not node.orelse and all(_simple_elt(e) for e in it.elts):
             v = node.target.id
@@ -121,12 +181,20 @@ class _Unroll(ast.NodeTransformer):
             if any(isinstance(n, ast.Name) and n.id == v and isinstance(n.ctx, (ast.Store, ast.Del))
                    for n in body_nodes):
                 return node
-            if any(isinstance(n, (ast.Break, ast.Continue)) for n in body_nodes):
+            if _own_jumps(node.body, ast.Break):
                 return node
+            has_continue = bool(_own_jumps(node.body, ast.Continue))
             out = []
             for e in it.elts:
-                for s in node.body:
-                    out.append(_Subst({v: e}).visit(copy.deepcopy(s)))
+                copy_body = [_Subst({v: e}).visit(copy.deepcopy(s)) for s in node.body]
+                if has_continue:
+                    copy_body = [x for s in copy_body for x in (lambda r: r if isinstance(r, list) else [r])(
+                        _ContinueToBreak().visit(s))]
+                    copy_body.append(ast.copy_location(ast.Break(), node))
+                    out.append(ast.copy_location(ast.While(test=ast.Constant(value=True), body=copy_body,
+                                                           orelse=[]), node))
+                else:
+                    out.extend(copy_body)
             return out
         return node
 
